@@ -27,7 +27,8 @@ LEVEL_NOTE = ("Trusted: Coq kernel + stdlib real axioms (sig_forall_dec, sig_not
               "NOT proved: floating-point rounding (theorems are exact-arithmetic; e.g. with tolerance 0 a time one ulp off the grid "
               "can make offset+shift round to an integer in binary64), integer/bool storage data types (a single float type is "
               "modelled in Coq; int64 and bool records are covered by the implementation-side oracle stream ONLY: expected values from "
-              "the list-of-observations history with exact Fractions, scalar/tensor agreement, range rejection, frame, round trips), time tensors whose shape differs from the observation's while having the right number of dimensions, "
+              "the list-of-observations history with exact Fractions, scalar/tensor agreement, range rejection, frame, round trips; likewise records whose step time is changed by load_state_dict / set_extra_state instead of the setter: "
+              "the Coq model has a fixed dt per record, the oracle stream checks them with the new dt), time tensors whose shape differs from the observation's while having the right number of dimensions, "
               "empty observations (nel = 0) for the out-of-place scalar insert.")
 HEADER = ("From Coq Require Import List ZArith Bool PrimFloat.\n"
           "From Inferno Require Import Base.NumF C01.Ring C02.Select C02.SelectExec.\n"
@@ -195,6 +196,26 @@ def gen_cases(rng, n):
 def gen_nonfloat_cases(rng, n):
     """records with int64 / bool storage: implementation + oracle only (the Coq model fixes one float type)"""
     return [gen_case(rng, malformed=(i % 8 == 7), dtype=("i64" if i % 3 else "bool")) for i in range(n)]
+
+
+def gen_restore_cases(rng, n):
+    """float records created with persist_temporal=True and ANOTHER step time (same number of slots) whose
+    temporal configuration is replaced, without the setters, by load_state_dict from / set_extra_state of a
+    record with the case's step time; implementation + oracle only.  'at' = index of the first operation run
+    on the restored record (earlier ones run on the source record, whose data and pointer travel with lsd)"""
+    out = []
+    for i in range(n):
+        c = gen_case(rng, malformed=(i % 8 == 7))
+        via = "lsd" if i % 3 else "ses"
+        lead = 0
+        while lead < len(c["ops"]) and c["ops"][lead][0] == "push":
+            lead += 1
+        at = 0 if (via == "ses" or c["rt"] or rng.random() < 0.3) else rng.choice([lead, lead, rng.randint(0, len(c["ops"]) - 1)])
+        if any(j < at <= j + 1 for j in c["rt"]):
+            at = lead
+        c["restore"] = {"dt0": rng.choice([d for d in DTS + [2.0, 0.7] if d != c["dt"]]), "via": via, "at": at}
+        out.append(c)
+    return out
 
 
 def exhaustive_cases():
@@ -372,7 +393,15 @@ def oracle_case(case, trace):
     n = nel(shape)
     prev = None          # decoded snapshot before the operation
     rel = 1e-6
-    for i, (op, (out, snap, aux)) in enumerate(zip(case["ops"], trace)):
+    late = []            # reported after the select/insert failures of the same case
+    for i, (op, ent) in enumerate(zip(case["ops"], trace)):
+        out, snap, aux = ent[0], ent[1], ent[2]
+        if len(ent) > 3 and i >= case["restore"]["at"]:
+            # restored record: it must report (and use) the step time it was given, with the same slots
+            if F.dec_float(ent[3]) != dt or ent[4] != case["N"]:
+                if not late:
+                    late.append({"step": i, "op": op, "what": "restored-dt", "expected": [dt, case["N"]],
+                                 "got": [F.dec_float(ent[3]), ent[4]]})
         snap = dec_state(snap)
         out = dec_out(out)
         pre, prev = prev, snap
@@ -454,7 +483,7 @@ def oracle_case(case, trace):
                 fail(("insert-frame-" if frame_bad else "insert-value-") + "+".join(kinds), exp, snap)
     # insert followed by select at the same time with a matching pair returns the inserted value
     for i in case.get("rt", []):
-        (o1, s1, _), (o2, s2, _) = trace[i], trace[i + 1]
+        o1, o2 = trace[i][0], trace[i + 1][0]
         if o1[0] != 0 or o2[0] != 0:
             continue
         els = case["ops"][i][2]
@@ -464,13 +493,15 @@ def oracle_case(case, trace):
         if not same(list(els), got, 1e-7, 1e-9):
             fails.append({"step": i + 1, "op": case["ops"][i + 1], "what": "roundtrip", "expected": els, "got": got,
                           "pair": [case["ops"][i][-3], case["ops"][i + 1][-2]]})
-    return fails
+    return fails + late
 
 
 def signature(f, case=None):
     sig = {"what": f["what"], "op": f["op"][0]}
     if case is not None and case.get("dtype", "f64") != "f64":
         sig["dtype"] = case["dtype"]
+    if case is not None and "restore" in case:
+        sig["restore"] = case["restore"]["via"]
     return sig
 
 
@@ -499,7 +530,8 @@ def compare(case, ti, tm):
     """model trace vs implementation trace; None or the first difference"""
     if len(ti) != len(tm):
         return {"detail": "trace lengths differ", "impl": len(ti), "model": len(tm)}
-    for j, ((io, isn, _), (mo, msn)) in enumerate(zip(ti, tm)):
+    for j, (ient, (mo, msn)) in enumerate(zip(ti, tm)):
+        io, isn = ient[0], ient[1]
         a, b = dec_out(io), dec_out(mo)
         if not same(a, b):
             return {"first_diff_step": j, "op": case["ops"][j], "where": "output", "impl": a, "model": b}
@@ -510,7 +542,8 @@ def compare(case, ti, tm):
 
 
 def is_float_case(c):
-    return c.get("dtype", "f64") == "f64"
+    """cases that also go through the Coq model"""
+    return c.get("dtype", "f64") == "f64" and "restore" not in c
 
 
 def run(ctx):
@@ -525,6 +558,8 @@ def run(ctx):
     # non-float storage (int64 / bool records): implementation-side oracle only, own random stream
     ncases = [c for c in corpus if not is_float_case(c)] + \
         gen_nonfloat_cases(random.Random(ctx["seed"] * 7919 + 13), 120 if quick else 1500)
+    # records whose step time arrives through load_state_dict / set_extra_state: oracle only, own random stream
+    ncases += gen_restore_cases(random.Random(ctx["seed"] * 104729 + 7), 60 if quick else 800)
     cases = fcases + ncases
     impl = F.run_impl(IMPL, {"cases": cases})
     model = F.eval_terms(ID, HEADER, [q_case(c) for c in fcases], shard=20 if quick else 100)
@@ -559,7 +594,9 @@ def run(ctx):
                 "non-trivial = at least one on-grid and one off-grid in-range time; distinct by full case text"
                 + ("; plus exhaustive small scope: N<=3, every pointer, offsets 0..N, 6 interpolations, all time kinds" if exhaustive else "")
                 + "; plus an oracle-only stream of the same sequences on int64 and bool records (integer-preserving extrapolations; "
-                  "expected values from the list-of-observations history with exact Fractions; scalar vs tensor agreement)",
+                  "expected values from the list-of-observations history with exact Fractions; scalar vs tensor agreement) and an "
+                  "oracle-only stream on persist_temporal=True records built with another step time (same slot count) whose "
+                  "dt/duration arrive through load_state_dict or set_extra_state before the selects/inserts (expected values with the NEW dt)",
         "op_distribution": dict(dist), "error_distribution": dict(errs), "time_kind_distribution": dict(kinds),
         "roundtrip_pairs": dict(pairs),
         "N_distribution": dict(Counter(c["N"] for c in cases)),
@@ -567,7 +604,8 @@ def run(ctx):
         "samples": cases[:2],
         "mismatches": mismatches, "oracle_failures": oracle_fail,
         "traces_validated_against_impl": len(fcases) - len(mismatches),
-        "model_correspondence_cases": len(fcases), "nonfloat_oracle_only_cases": len(ncases),
+        "model_correspondence_cases": len(fcases), "oracle_only_cases": len(ncases),
+        "restored_step_time_cases": dict(Counter(c["restore"]["via"] for c in cases if "restore" in c)),
         "storage_dtype_distribution": dict(Counter(c.get("dtype", "f64") for c in cases)),
     }
 
